@@ -1275,6 +1275,7 @@ class Executor:
             self.list_counter += 1
             r = ListV(a.items + b.items, opaque=opaque, lid=self.list_counter)
             r.parts = (a, b)
+            r.numeric = True
             return r
         if isinstance(a, (ListV, TupleV)) and isinstance(b, Num) and isinstance(op, ast.Mult) or (
             isinstance(b, (ListV, TupleV)) and isinstance(a, Num) and isinstance(op, ast.Mult)
@@ -1546,6 +1547,11 @@ class Executor:
                 raise RaiseSignal("IndexError", None, node, None)
             if isinstance(base, ListV):
                 self.emit("list_read", node, lst=base, index=i)
+                el = base.elem
+                if el is None and not base.items and getattr(base, "numeric", False) or (el is None and getattr(base, "parts", None) is not None):
+                    # a list of numbers whose contents are unknown: keep the position
+                    r = Num(app("listitem", base.lid, i.nf), (), None, meta={"list_item": (base, i)})
+                    return r
                 return self.list_elem(base, node)
             return OpaqueV(f"{valkey(base)}[{valkey(i)}]")
         raise Undecided(f"sequence index {i!r}", node)
@@ -1580,6 +1586,7 @@ class Executor:
         return self.call(fv, args, kwargs, e, frame)
 
     def call(self, fv, args, kwargs, node, frame=None):
+        self.models.watch_labels(self, fv, args, kwargs, node)
         if isinstance(fv, FuncV):
             so = fv.self_obj
             if isinstance(so, ClassV):
